@@ -684,7 +684,9 @@ def run_comp(prop, tier, seed, prefixes, res):
 
 def check_comp(prop, tier, seed):
     res = Result()
-    summ, states, trans, ok = run_comp(prop, tier, seed, [prop], res)
+    # C18's statement includes "serialises ... to exactly the number of bits it reports": the size conjuncts that
+    # TraceComp labels C08 are judged here as well when the component came out of a constructor
+    summ, states, trans, ok = run_comp(prop, tier, seed, [prop, "C08"] if prop == "C18" else [prop], res)
     res.coverage = dict(states=states, transitions=trans, traces_validated_against_impl=ok, evaluations=summ["events"],
                         distinct_nontrivial=summ["classes"], outcomes=summ["outcomes"],
                         rule="grids of consistent and inconsistent arguments for every public constructor (Residual, QuantizedParameters, Constant, "
